@@ -318,6 +318,18 @@ def run(ctx: Ctx) -> int:
     ok = bool(val_uses) and (all(_normalised(u) for u in val_uses if isinstance(getattr(u, "_jv_parent", None), (ast.Attribute, ast.BinOp))) and any(_normalised(u) for u in val_uses) or bool(whole))
     ctx.oblige("C17.e", ok, val_uses[0] if val_uses else gev, "the environment variable name is built from the prefix with dashes replaced (a subcommand named `dry-run` is addressed as ..._DRY_RUN_...)" if ok else "get_env_var uses the parser's env_prefix as it is: the prefix of a subcommand parser contains the subcommand's name, and for a name with a dash the variable looked up (APP_DRY-RUN_X) can never be set - the subcommand loses its environment settings", fn=gev, construct="env var name normalised")
 
+    # the environment branch: a subcommand named in the environment MAPPING being read gets its settings from that
+    # same mapping (parse_env(env=<the mapping>)), and under the same defaults flag
+    lev = ctx.func("_core:ArgumentParser._load_env_vars")
+    envp = lev.args.args[1].arg
+    npe = [c for c in calls_in(lev) if call_leaf(c) == "parse_env"]
+    ctx.need(npe, "_load_env_vars: nested parse_env for the chosen subcommand")
+    for c in npe:
+        kw_ = {k.arg: k.value for k in c.keywords if k.arg}
+        bound_env = kw_.get("env", c.args[0] if c.args else None)
+        ok = isinstance(bound_env, ast.Name) and bound_env.id == envp and isinstance(kw_.get("defaults"), ast.Name) and kw_["defaults"].id == "defaults"
+        ctx.oblige("C17.e", ok, c, "the chosen subcommand's environment settings are read from the mapping that named it" if ok else "the nested parse_env does not receive the mapping being read: a subcommand chosen by parse_env({...}) takes its settings from os.environ instead of the mapping (values ignored, nested choice rejected)", fn=lev)
+
     # ---------------- C17.h intermediate folds do not decide ---------------------------------------------------
     # a configuration that is folded in BEFORE the command line / object has been seen (a default config file, a
     # --cfg item) must not pick a subcommand: picking deletes the other sections, and the source that names the
